@@ -382,6 +382,42 @@ def part_seeds(report, only=None):
     return ok
 
 
+def part_benign(report, only=None):
+    """stored source changes under which every property still holds (/verif/benign/<id>: patch.diff, meta.json with the
+    checks they were run against): applied to /repo one at a time, every listed check must stay quiet"""
+    st = subprocess.run(["git", "-C", "/repo", "status", "--porcelain"], stdout=subprocess.PIPE, text=True).stdout.strip()
+    if st:
+        print("selftest benign: /repo has uncommitted changes; refusing to apply stored changes")
+        return False
+    ok = True
+    res = {}
+    bdir = os.path.join(ROOT, "benign")
+    for bid in sorted(x for x in os.listdir(bdir) if os.path.isdir(os.path.join(bdir, x))):
+        if only and bid not in only:
+            continue
+        d = os.path.join(bdir, bid)
+        meta = json.load(open(os.path.join(d, "meta.json")))
+        for pid in meta.get("checks", []):
+            try:
+                a = subprocess.run(["git", "-C", "/repo", "apply", os.path.join(d, "patch.diff")], stdout=subprocess.PIPE, stderr=subprocess.STDOUT, text=True)
+                if a.returncode != 0:
+                    print(f"selftest benign {bid}: patch does not apply any more: {a.stdout[:200]}")
+                    res[bid + ":" + pid] = dict(applied=False)
+                    ok = False
+                    break
+                p = subprocess.run([os.path.join(ROOT, "check"), pid, "--tier", "quick"], stdout=subprocess.PIPE, stderr=subprocess.STDOUT, text=True)
+            finally:
+                subprocess.run(["git", "-C", "/repo", "checkout", "--", "."])
+            vio = [l for l in p.stdout.splitlines() if l.startswith("VIOLATION")]
+            quiet = p.returncode == 0 and not vio
+            res[bid + ":" + pid] = dict(applied=True, exit=p.returncode, violations=[v[:200] for v in vio[:3]])
+            print(f"selftest benign {bid} under {pid}: exit {p.returncode}, {len(vio)} VIOLATION line(s) -> {'quiet' if quiet else 'FALSE ALARM'}")
+            ok &= quiet
+    core.build_harness()
+    report["benign"] = res
+    return ok
+
+
 def run(a):
     part = getattr(a, "part", None) or "all"
     report = {}
@@ -401,6 +437,8 @@ def run(a):
             ok &= part_corrupt(report)
         elif p == "seeds" or p.startswith("seeds:"):
             ok &= part_seeds(report, only=p.split(":")[1].split(",") if ":" in p else None)
+        elif p == "benign" or p.startswith("benign:"):
+            ok &= part_benign(report, only=p.split(":")[1].split(",") if ":" in p else None)
         else:
             print("unknown part", p)
             return 2
